@@ -207,7 +207,9 @@ def extract_from_template(
     _keywords = keywords or DEFAULT_KEYWORDS
     ctx = RenderContext(template)
 
-    _line_number = line_number_factory(template.nodes[0].token.source)
+    _line_number = line_number_factory(
+        template.nodes[0].token.source if template.nodes else ""
+    )
 
     def visit_expression(expr: Expression, lineno: int) -> Iterator[MessageTuple]:
         if isinstance(expr, (FilteredExpression, TernaryFilteredExpression)):
